@@ -28,6 +28,8 @@ type Reader struct {
 
 	r         io.ByteReader
 	err       error  // Last read error, if any
+	srcErr    error  // error of r; becomes err once made-up bits are consumed
+	fakeBits  int    // number of made-up zero bits at the end of current
 	current   uint32 // up to 4 bytes of input, valid bits MSB-aligned
 	validBits int    // number of valid bits in current
 
@@ -387,9 +389,16 @@ func (r *Reader) peekBits(n int) uint32 {
 	}
 
 	for r.validBits < n {
+		// After the first error, use an infinite stream of zeros.  The
+		// look-ahead may run past the end of the input while real bits
+		// are still buffered: the error of the source is only raised once
+		// made-up bits are consumed (see consumeBits).
 		var x byte
-		if r.err == nil { // after the first error, use an inifinite stream of zeros
-			x, r.err = r.r.ReadByte()
+		if r.err == nil && r.srcErr == nil {
+			x, r.srcErr = r.r.ReadByte()
+		}
+		if r.srcErr != nil {
+			r.fakeBits += 8
 		}
 		r.current |= uint32(x) << (24 - r.validBits)
 		r.validBits += 8
@@ -403,6 +412,12 @@ func (r *Reader) consumeBits(n int) {
 	}
 	r.current <<= n
 	r.validBits -= n
+	if r.validBits < r.fakeBits {
+		r.fakeBits = r.validBits
+		if r.err == nil {
+			r.err = r.srcErr
+		}
+	}
 }
 
 func (r *Reader) readBits(n int) uint32 {
